@@ -1,4 +1,5 @@
 import CotengraVerif.Lemmas.Cost
+import CotengraVerif.Lemmas.Peak
 
 /-!
 # C03 — reported flops / write / size match the definition
@@ -253,6 +254,121 @@ theorem stats_eq_spec (n : Net) (rm sliced : List Ix) (t : BT) (hd : t.leaves.No
   unfold stats specStats
   simp only [hf, hs]
 
+/-! ## peak concurrent memory (`peak_size(order)`, core.py:1008-1024)
+
+The definition (`Lemmas/Peak.lean`): the inputs are live at the start; a step needs everything
+that is live — its two operands among it — plus its output at the same time; afterwards the
+operands are gone and the output is live (`liveStep`).  `stepsPeak` is the largest requirement
+over the steps, with the sizes of the independent definition. -/
+
+theorem peak_eq_fold (n : Net) (rm : List Ix) (t : BT) (order : List BT) :
+    n.peak rm t order =
+      (order.foldl (peakStep (n.sizeIn rm t))
+        (sumSz (n.sizeIn rm t) (t.leaves.map BT.leaf), sumSz (n.sizeIn rm t) (t.leaves.map BT.leaf))).2 := by
+  unfold peak sumSz
+  simp only [List.map_map]
+  rfl
+
+/-- sizes agree on every tensor the schedule touches ⇒ same peak requirement -/
+theorem stepsPeak_congr (sz sz' : BT → Nat) (order : List BT) :
+    ∀ (av : List BT), (∀ x ∈ av, sz x = sz' x) → (∀ p ∈ order, sz p = sz' p) →
+      stepsPeak sz av order = stepsPeak sz' av order := by
+  induction order with
+  | nil => intro _ _ _; rfl
+  | cons p rest ih =>
+    intro av hav hord
+    unfold stepsPeak
+    have hp := hord p List.mem_cons_self
+    have hsum : sumSz sz av = sumSz sz' av := by
+      unfold sumSz
+      congr 1
+      exact List.map_congr_left hav
+    have hlive : ∀ x ∈ liveStep av p, sz x = sz' x := by
+      intro x hx
+      cases p with
+      | leaf i => exact hav x hx
+      | node l r =>
+        unfold liveStep at hx
+        rcases List.mem_cons.1 hx with rfl | hx
+        · exact hp
+        · exact hav x (List.mem_of_mem_erase (List.mem_of_mem_erase hx))
+    rw [hsum, hp, ih _ hlive (fun q hq => hord q (List.mem_cons_of_mem _ hq))]
+
+/-- reported size of every tensor of the tree (input, intermediate, root) = the definition's -/
+theorem sizeIn_eq_spec (n : Net) (rm : List Ix) (t : BT) (hd : t.leaves.Nodup)
+    (hb : ∀ i ∈ t.leaves, i < n.inputs.length) (s : BT) (hsub : s.leaves.Sublist t.leaves) :
+    n.sizeIn rm t s = specSizeIn n rm t s := by
+  unfold sizeIn specSizeIn
+  split
+  · exact rootSize_eq n rm
+  · exact size_eq_spec n rm s (hd.sublist hsub) (fun i hi => hb i (hsub.subset hi))
+
+/-- **peak_eq_spec.** For every network, removed set, tree and *every* children-first order of
+    its contractions (`ChildrenFirst`: each step finds both operands live — a leaf, or an earlier
+    result not yet consumed): `peak_size(order)` is the larger of the total size of the inputs
+    and the largest step requirement `stepsPeak` — "all live tensors + the output" — computed with
+    the sizes of the independent definition (`specSizeIn`: product of the dimensions of the
+    indices surviving the tensor's leaf set, the output indices for the root). -/
+theorem peak_eq_spec (n : Net) (rm : List Ix) (t : BT) (hd : t.leaves.Nodup)
+    (hb : ∀ i ∈ t.leaves, i < n.inputs.length) (order : List BT) (hcf : Cotengra.ChildrenFirst t order) :
+    n.peak rm t order =
+      max (sumSz (specSizeIn n rm t) (t.leaves.map BT.leaf))
+          (stepsPeak (specSizeIn n rm t) (t.leaves.map BT.leaf) order) := by
+  rw [peak_eq_fold, peakFold_eq (n.sizeIn rm t) hcf.2]
+  have hleaf : ∀ x ∈ t.leaves.map BT.leaf, n.sizeIn rm t x = specSizeIn n rm t x := by
+    intro x hx
+    obtain ⟨i, hi, rfl⟩ := List.mem_map.1 hx
+    exact sizeIn_eq_spec n rm t hd hb _ (List.singleton_sublist.2 hi)
+  have hord : ∀ p ∈ order, n.sizeIn rm t p = specSizeIn n rm t p := by
+    intro p hp
+    exact sizeIn_eq_spec n rm t hd hb p (internal_leaves_sublist t p (hcf.1.subset hp))
+  have hsum : sumSz (n.sizeIn rm t) (t.leaves.map BT.leaf) = sumSz (specSizeIn n rm t) (t.leaves.map BT.leaf) := by
+    unfold sumSz
+    congr 1
+    exact List.map_congr_left hleaf
+  show max _ _ = _
+  rw [stepsPeak_congr _ _ order _ hleaf hord, hsum]
+
+/-- **running total = live memory.** Along every children-first order the number the loop
+    carries (`tot_size`) ends as the size of the root alone: every other tensor has been consumed
+    exactly once (so the subtraction in the loop, exact in python and truncating in the model,
+    never goes below zero — `Net.peakStep_no_underflow` is the per-step statement). -/
+theorem peak_running_total_final (n : Net) (rm : List Ix) (t : BT) (order : List BT)
+    (hcf : Cotengra.ChildrenFirst t order) :
+    (order.foldl (peakStep (n.sizeIn rm t))
+      (sumSz (n.sizeIn rm t) (t.leaves.map BT.leaf), sumSz (n.sizeIn rm t) (t.leaves.map BT.leaf))).1 =
+      n.sizeIn rm t t := by
+  rw [peakFold_eq (n.sizeIn rm t) hcf.2]
+  simp [sumSz]
+
+theorem listMax_le (M : List Nat) (b : Nat) (h : ∀ x ∈ M, x ≤ b) : listMax M ≤ b := by
+  unfold listMax
+  have : ∀ (l : List Nat) (a : Nat), a ≤ b → (∀ x ∈ l, x ≤ b) → l.foldl max a ≤ b := by
+    intro l
+    induction l with
+    | nil => intro a ha _; exact ha
+    | cons y l ih =>
+      intro a ha hl
+      simp only [List.foldl_cons]
+      exact ih _ (Nat.max_le.2 ⟨ha, hl y List.mem_cons_self⟩) (fun x hx => hl x (List.mem_cons_of_mem _ hx))
+  exact this M 0 (Nat.zero_le _) h
+
+/-- **max_size_le_peak.** Whatever the order, the largest intermediate never exceeds the peak:
+    `contract_stats()['size'] ≤ peak_size(order)`. -/
+theorem max_size_le_peak (n : Net) (rm sliced : List Ix) (t : BT) (order : List BT)
+    (hcf : Cotengra.ChildrenFirst t order) :
+    (n.stats rm sliced t).size ≤ n.peak rm t order := by
+  rw [peak_eq_fold, peakFold_eq (n.sizeIn rm t) hcf.2]
+  show listMax (t.internal.map (n.sizeIn rm t)) ≤ _
+  apply listMax_le
+  intro x hx
+  obtain ⟨p, hp, rfl⟩ := List.mem_map.1 hx
+  have hmem : p ∈ order := hcf.1.symm.subset hp
+  exact Nat.le_trans (le_stepsPeak (n.sizeIn rm t) order _ p hmem) (Nat.le_max_right _ _)
+
+/-- the depth-first order of the model is children-first, so the theorems above are not vacuous -/
+example (t : BT) : Cotengra.ChildrenFirst t t.internal := Cotengra.childrenFirst_internal t
+
 /-! ## non-vacuity: a concrete network with a hyper index, a repeated index, a size-1 dimension -/
 
 def exNet : Net :=
@@ -263,6 +379,13 @@ def exTree : BT := .node (.node (.leaf 0) (.leaf 1)) (.node (.leaf 2) (.leaf 3))
 example : exTree.leaves.Nodup ∧ (∀ i ∈ exTree.leaves, i < exNet.inputs.length) := by decide
 example : exNet.stats [] [] exTree = { flops := 72, write := 28, size := 16 } := by decide
 example : exNet.stats [4] [4] exTree = { flops := 72, write := 28, size := 8 } := by decide
+/-- peak along the depth-first order: the inputs 6+24+8+2 = 40 are live at the start; the step
+    (0,1) needs 40 + 16 = 56 (afterwards 26 are live), (2,3) needs 26 + 8 = 34, the root
+    24 + 4 = 28; the loop and the definition agree on 56 -/
+example : exNet.peak [] exTree exTree.internal = 56 ∧
+    max (sumSz (exNet.sizeIn [] exTree) (exTree.leaves.map BT.leaf))
+      (stepsPeak (exNet.sizeIn [] exTree) (exTree.leaves.map BT.leaf) exTree.internal) = 56 := by
+  decide
 example : exNet.Surv [] (.node (.leaf 0) (.leaf 1)) 4 ∧ ¬ exNet.Surv [] (.node (.leaf 0) (.leaf 1)) 1 := by
   decide
 
